@@ -338,7 +338,13 @@ namespace jsoncons {
                 done_ = true;
                 return;
             }
-            JSONCONS_ASSERT(cursor_ptr_->current().event_type() == staj_events::key);
+            if (JSONCONS_UNLIKELY(cursor_ptr_->current().event_type() != staj_events::key))
+            {
+                // e.g. a binary format map whose key is not a string
+                ec = json_errc::expected_key;
+                done_ = true;
+                return;
+            }
             auto key = cursor_ptr_->current(). template get<key_type>();
             cursor_ptr_->next(ec);
             if (JSONCONS_UNLIKELY(ec))
